@@ -588,6 +588,30 @@ func (w *World) Sweep() (string, *reffs.Mismatch, fsx.Op) {
 			if len(got) != len(obj.Children)+2 {
 				return v, &reffs.Mismatch{Rule: "READDIRPLUS-extra", Msg: fmt.Sprintf("%d entries listed, reference has %d (+2)", len(got), len(obj.Children))}, fsx.Op{K: "READDIRPLUS", H: v}
 			}
+			// the same listing page by page: one entry per page, and a few per page
+			for _, pg := range []struct {
+				plus  bool
+				limit uint64
+			}{{false, 1}, {true, 1}, {false, 64 + 3*40}, {true, 64 + 3*200}} {
+				pe, err := fsx.ListDirPaged(w.Srv, h, pg.plus, pg.limit)
+				o := fsx.Op{K: "READDIR", H: v, Cnt: pg.limit}
+				if pg.plus {
+					o = fsx.Op{K: "READDIRPLUS", H: v, DirCnt: 1 << 30, MaxCnt: uint32(pg.limit)}
+				}
+				if err != nil {
+					return v, &reffs.Mismatch{Rule: o.K + "-paged-enumeration", Msg: err.Error()}, o
+				}
+				seen := map[string]bool{}
+				for _, e := range pe {
+					if seen[e.Name] || !got[e.Name] {
+						return v, &reffs.Mismatch{Rule: o.K + "-paged-dup-or-extra", Msg: fmt.Sprintf("%q listed twice or not in the directory (page limit %d)", e.Name, pg.limit)}, o
+					}
+					seen[e.Name] = true
+				}
+				if len(seen) != len(got) {
+					return v, &reffs.Mismatch{Rule: o.K + "-paged-missing", Msg: fmt.Sprintf("%d of %d entries listed page by page (page limit %d)", len(seen), len(got), pg.limit)}, o
+				}
+			}
 		}
 	}
 	// dead handles stay dead
